@@ -25,6 +25,48 @@ fn rename_program(p: &Program, regmap: &[Reg; 32], labelmap: &HashMap<String, St
     }
 }
 
+/// Titles, descriptions and related notes with every identifier mapped through the renaming must be
+/// the renamed program's texts (as multisets). Returns a first pair of texts that differ.
+fn texts_differ(d0: &[crate::rva::Diag], d1: &[crate::rva::Diag], labelmap: &HashMap<String, String>, regmap: &[Reg; 32]) -> Option<(String, String)> {
+    let map_word = |w: &str| -> String {
+        if let Some(l) = labelmap.get(w) {
+            return l.clone();
+        }
+        if let Some(r) = ABI.iter().position(|n| *n == w) {
+            return ABI[regmap[r] as usize].to_string();
+        }
+        w.to_string()
+    };
+    let map_text = |t: &str| -> String {
+        let mut out = String::new();
+        let mut word = String::new();
+        for ch in t.chars().chain(std::iter::once(' ')) {
+            if ch.is_alphanumeric() || ch == '_' {
+                word.push(ch);
+            } else {
+                if !word.is_empty() {
+                    out.push_str(&map_word(&word));
+                    word.clear();
+                }
+                out.push(ch);
+            }
+        }
+        out.pop();
+        out
+    };
+    let text = |d: &crate::rva::Diag| format!("{} / {} / {}", d.title, d.desc, d.related.iter().map(|r| r.2.clone()).collect::<Vec<_>>().join(" ; "));
+    let mut t0: Vec<String> = d0.iter().map(|d| map_text(&text(d))).collect();
+    let mut t1: Vec<String> = d1.iter().map(text).collect();
+    t0.sort();
+    t1.sort();
+    if t0 == t1 {
+        return None;
+    }
+    let a = t0.iter().find(|t| !t1.contains(t)).cloned().unwrap_or_default();
+    let b = t1.iter().find(|t| !t0.contains(t)).cloned().unwrap_or_default();
+    Some((a, b))
+}
+
 fn fresh_label(rng: &mut Rng, k: usize) -> String {
     const HEAD: &[u8] = b"abcdefghijklmnopqrstuvwxyzABCDEFGHIJKLMNOPQRSTUVWXYZ_";
     const TAIL: &[u8] = b"abcdefghijklmnopqrstuvwxyzABCDEFGHIJKLMNOPQRSTUVWXYZ_0123456789";
@@ -144,6 +186,13 @@ pub fn run(ctx: &Ctx) -> i32 {
                     acc.violation(
                         format!("C14|{class}|{}|{}", if rename_labels && class == "label" { "label" } else { regname }, key.0),
                         format!("after renaming ({}{}) the diagnostic {:?} is expected {n0}x but found {n1}x", moved.join(" "), if rename_labels { " +labels" } else { "" }, key),
+                        json!({"original": c0.printed.text, "renamed": c1.printed.text}),
+                    );
+                } else if let Some((t0, t1)) = texts_differ(&a0.all_diags(), &a1.all_diags(), &labelmap, &regmap) {
+                    // same kinds at the same places, but the wording is not the renamed wording
+                    acc.violation(
+                        format!("C14|{class}|text|{}", if rename_labels { "labels" } else { "registers" }),
+                        format!("after renaming the message `{t0}` (names mapped) has no counterpart; the renamed program says `{t1}`"),
                         json!({"original": c0.printed.text, "renamed": c1.printed.text}),
                     );
                 } else {
